@@ -417,9 +417,17 @@ def _scaling_classes(prog):
     for f in module_region(prog, fi):
         nodes = list(walk_body(f.node))
         # module-level tables the code refers to:  _FACTORIES = (('Linear', LinearScaling.from_properties), ...)
+        table_nodes = []
         for n in list(nodes):
             if isinstance(n, ast.Name) and n.id in f.module.assigns and not isinstance(f.module.assigns[n.id], ast.Constant):
-                nodes += list(ast.walk(f.module.assigns[n.id]))
+                table_nodes += list(ast.walk(f.module.assigns[n.id]))
+        nodes += table_nodes
+        for n in table_nodes:
+            # a class named in a table row:  ('Linear', LinearScaling, ())
+            if isinstance(n, ast.Name):
+                c = prog.resolve_class(f.module, n)
+                if c is not None and c.module.name == "scaling" and c not in out and c.name != "MultiScaling":
+                    out.append(c)
         for n in nodes:
             c = None
             if isinstance(n, ast.Call) and isinstance(n.func, ast.Attribute) and n.func.attr == "from_properties":
